@@ -20,6 +20,7 @@ RULE = ("Hypothesis: 1-3 integer-tick well-formed sequences of unequal length pu
         "result, in the raw fresh view(s) and in both views read on a replica, every message time is of integer type (not "
         "bool, not float); every emitted token matches an integer-only token grammar. Non-trivial: the pipeline built a Bar "
         "from a sequence shorter than its capacity or split tracks of unequal length into bars. Distinct by case digest.")
+RULE = RULE + " Round f: tokeniser ppqn in {None, 24, 48, 96, 120}; token grammar checked before detokenise."
 ASSUMPTIONS = ["an exception raised by a stage (BarException, TokenisationException, IndexError on empty content, ...) means the "
                "pipeline produced content that stage does not accept: the pipeline ends as inconclusive"]
 TIERS = {"quick": dict(shards=8, examples=500), "thorough": dict(shards=16, examples=6000)}
